@@ -102,10 +102,12 @@ func buildWorld(r *vf.Run, wi int) (w *world, err error) {
 	// wallets ------------------------------------------------------------------------
 	g := &group{cache: wfix.NewRefPubCache()}
 	w.g = g
+	made := map[string]wallet.Options{}
 	create := func(id string, o wallet.Options) {
 		o.Label = id
 		_, err := w.ws.CreateWallet(id, o)
 		must(err)
+		made[id] = o
 	}
 	nk := func() []cipher.SecKey {
 		ks := make([]cipher.SecKey, 3+rng.Intn(3))
@@ -155,10 +157,9 @@ func buildWorld(r *vf.Run, wi int) (w *world, err error) {
 	add("bip44", "b44.wlt", "", true, ownersOf(get("b44.wlt")), "")
 	add("collection", "col.wlt", "", true, ownersOf(get("col.wlt")), "")
 	add("xpub", "xp.wlt", "xpub", false, xpOwned, "")
-	// encrypt three wallets inside the service (cheap crypto types); ownership was read before
+	// encrypt three wallets inside the service (cheap crypto types), then let them generate more addresses
 	for i, id := range []string{"det-enc.wlt", "b44-enc.wlt", "col-enc.wlt"} {
 		owned := ownersOf(get(id))
-		plain := get(id)
 		ct := crypto.CryptoTypeSha256Xor
 		if (i+wi)%3 == 1 {
 			ct = crypto.CryptoTypeScryptChacha20poly1305Insecure
@@ -170,8 +171,60 @@ func buildWorld(r *vf.Run, wi int) (w *world, err error) {
 		if !get(id).IsEncrypted() {
 			panic("wallet " + id + " is not encrypted after EncryptWallet")
 		}
+		// the encrypted wallet goes on handing out addresses the way the API does it: bip44 without the
+		// password (external and change chain), the others inside GuardUpdate with the password; their
+		// secrets are not in the encrypted blob (bip44) until the wallet is next unlocked
+		created := map[cipher.Address]bool{}
+		for _, o := range owned {
+			created[o.addr] = true
+		}
+		opts := made[id]
+		script := []string{"create", "encrypt(" + string(ct) + ")"}
+		how := "guarded"
+		switch opts.Type {
+		case wallet.WalletTypeBip44:
+			how = "locked"
+			k1, k2 := 1+rng.Intn(2), 1+rng.Intn(2)
+			_, err = w.ws.NewAddresses(id, nil, wallet.OptionGenerateN(uint64(k1)), wallet.OptionChange())
+			must(err)
+			_, err = w.ws.NewAddresses(id, nil, wallet.OptionGenerateN(uint64(k2)))
+			must(err)
+			script = append(script, fmt.Sprintf("generate-change(%d)@locked", k1), fmt.Sprintf("generate(%d)@locked", k2))
+		case wallet.WalletTypeDeterministic:
+			k := 1 + rng.Intn(2)
+			_, err = w.ws.NewAddresses(id, []byte(pw), wallet.OptionGenerateN(uint64(k)))
+			must(err)
+			script = append(script, fmt.Sprintf("generate(%d)@guard-update", k))
+		case wallet.WalletTypeCollection:
+			ks := nk()[:2]
+			_, err = w.ws.NewAddresses(id, []byte(pw), wallet.OptionCollectionPrivateKeys(ks))
+			must(err)
+			opts.CollectionPrivateKeys = append(append([]cipher.SecKey{}, opts.CollectionPrivateKeys...), ks...)
+			script = append(script, "add-keys(2)@guard-update")
+		}
+		locked := get(id)
+		secs := twinSecrets(locked, opts.Seed, opts.SeedPassphrase, opts.CollectionPrivateKeys, nil)
+		fes, err := wfix.AllEntries(locked)
+		must(err)
+		if len(fes) <= len(owned) {
+			panic("wallet " + id + " has no more addresses after NewAddresses")
+		}
+		owned = nil
+		birth := map[cipher.Address]string{}
+		for _, fe := range fes {
+			a := fe.E.SkycoinAddress()
+			owned = append(owned, owner{addr: a, pub: fe.E.Public, sec: secs[a.String()]})
+			b := []string{"ext.", "chg."}[fe.Chain&1]
+			if created[a] {
+				b += "created"
+			} else {
+				b += how
+			}
+			birth[a] = b
+		}
 		name := []string{"deterministic-enc", "bip44-enc", "collection-enc"}[i]
-		g.fixtures = append(g.fixtures, fixture{name: name, w: plain, owned: owned, canSign: true, why: "encrypted", id: id, password: []byte(pw), crypto: string(ct)})
+		g.fixtures = append(g.fixtures, fixture{name: name, w: locked, owned: owned, canSign: true, why: "encrypted", id: id, password: []byte(pw), crypto: string(ct),
+			script: script, birth: birth})
 	}
 	for _, k := range w.chain.Keys[wNDist : wNDist+wNForeign] {
 		g.foreign = append(g.foreign, owner{addr: k.Addr, sec: k.Sec, pub: k.Pub})
